@@ -75,6 +75,10 @@ func insertVertex(tx kvi.KVBulkWrite, idx *kvindex.KVIndex, graph string, vertex
 		return nil
 	}
 	doc := map[string]interface{}{graph: vertexIdxStruct(vertex)}
+	// an element the index cannot take is refused before anything of it is written
+	if err := idx.CheckDoc(doc); err != nil {
+		return fmt.Errorf("AddVertex Error %s", err)
+	}
 	if err := tx.Set(key, value); err != nil {
 		return fmt.Errorf("AddVertex Error %s", err)
 	}
@@ -95,6 +99,11 @@ func insertEdge(tx kvi.KVBulkWrite, idx *kvindex.KVIndex, graph string, edge *gr
 
 	data, err = proto.Marshal(edge)
 	if err != nil {
+		return err
+	}
+
+	// an element the index cannot take is refused before anything of it is written
+	if err = idx.CheckDoc(map[string]interface{}{graph: edgeIdxStruct(edge)}); err != nil {
 		return err
 	}
 
@@ -145,8 +154,10 @@ func (kgdb *KVInterfaceGDB) AddEdge(edges []*gdbi.Edge) error {
 }
 
 func (kgdb *KVInterfaceGDB) BulkAdd(stream <-chan *gdbi.GraphElement) error {
+	// a refused element does not take the rest of the stream with it: what was accepted is
+	// committed, the refusals are reported afterwards (as adding the elements one by one does)
+	var bulkErr *multierror.Error
 	err := kgdb.kvg.kv.BulkWrite(func(tx kvi.KVBulkWrite) error {
-		var bulkErr *multierror.Error
 		inserted := false
 		for elem := range stream {
 			if elem.Vertex != nil {
@@ -169,9 +180,12 @@ func (kgdb *KVInterfaceGDB) BulkAdd(stream <-chan *gdbi.GraphElement) error {
 		if inserted {
 			kgdb.kvg.ts.Touch(kgdb.graph)
 		}
-		return bulkErr.ErrorOrNil()
+		return nil
 	})
-	return err
+	if err != nil {
+		return err
+	}
+	return bulkErr.ErrorOrNil()
 }
 
 // DelEdge deletes edge with id `key`
